@@ -31,8 +31,8 @@ PROPS = {
   "explanation": "theorems over the bit-exact model for the discrete clauses; the model is tied to the Go code by differential run (incl. 300-iteration log and 150000-iteration power series)",
  },
  "C14": {
-  "modules": ["OsmoVerif.Props.C14"],
-  "min_theorems": 8,
+  "modules": ["OsmoVerif.Props.C14", "OsmoVerif.Props.C14Mono"],
+  "min_theorems": 25,
   "fingerprints": ["CL.*"],
   "engines": [{"name": "tick", "kind": "pure", "n": {"quick": 60000, "thorough": 400000}, "shards": {"quick": 4, "thorough": 4},
                "env": {"thorough": {"VERIF_TICK_SWEEP": "1", "VERIF_TICK_SWEEP_STRIDE": "61"}}}],
@@ -41,7 +41,8 @@ PROPS = {
   "trusted_base": ["osmomath arithmetic as proved in C12/C13"],
   "assumptions": ["thorough tier additionally sweeps every 61st tick of the whole range per shard with the per-tick clauses (formula, strict monotonicity, "
                   "round trip, bucket edges); VERIF_TICK_SWEEP_STRIDE=1 enumerates all 6.1e8 ticks (about 40 min on 16 cores)"],
-  "explanation": "theorems: out-of-range rejection, spacing rounding spec, bucket containment of the sqrt-price search; model tied by differential run",
+  "explanation": "theorems: closed formula of tick->price on the whole range, strict monotonicity of price AND sqrt price, bounds, out-of-range rejection, "
+                 "spacing rounding spec, bucket containment of the sqrt-price search; model tied by differential run. Round-trip totality (sp(t) maps back to t) is tested (sweep), not proved.",
  },
  "C18": {
   "modules": ["OsmoVerif.Props.C18"],
